@@ -508,6 +508,9 @@ func (d *driver) fire(where string, gen int, acts []Act, paused bool, self strin
 			}
 			g := d.s.gen(gen)
 			id := self
+			if strings.HasPrefix(id, extType+"/") {
+				id = "" // extensions get a host that does not report status
+			}
 			if a.N >= 0 || id == "" || d.w.host(gen, id) == nil {
 				n := a.N
 				if n < 0 {
